@@ -81,6 +81,11 @@ def weights(r, E, style):
     # dyadic weights w / 2^scale over the whole exponent range in which sums stay exact: tiny (2^-60: every weight and
     # every difference is far below machine epsilon), ordinary, and huge (w * 2^20)
     if style == "dyadic": return [(u, v, r.randint(1, 64)) for (u, v) in E], r.choice([1, 3, 5, 40, 55, 60, -20])
+    # mixed magnitudes: small weights next to weights around 2^43 (ratio > 1e12), alternatives that differ by a few
+    # units — still exactly summable (scale -1: real weight = 2 w; int runs are skipped for non-zero scales)
+    if style == "mixed":
+        B = 2 ** 42
+        return [(u, v, r.randint(1, 4) if r.random() < .5 else B + r.randint(0, 4)) for (u, v) in E], -1
     raise ValueError(style)
 
 def shuffle_graph(r, n, E):
